@@ -62,6 +62,258 @@ def install(R):
                   "AnyError": dict(ensures=["fs_same_except(ResultPath(crop.location, batch_number))"]),
                   "OSError": dict(ensures=["fs_same_except(ResultPath(crop.location, batch_number))"]),
                   "EOFError": dict(ensures=["fs_unchanged()"]), "FileNotFoundError": dict(ensures=["fs_unchanged()"])},
-          on_raise=[("nothing_but_this_result_touched", "fs_same_except(ResultPath(crop.location, batch_number))")],
-          trace=[("no_result_if_function_raised", "True")])
+          on_raise=[("nothing_but_this_result_touched", "fs_same_except(ResultPath(crop.location, batch_number))"),
+                    ("no_result_recorded_unless_every_case_returned", "implies(not called('write_to_disk'), fs_unchanged())")])
+    return R
+
+
+def install_sow(R):
+    """save_info / prepare / sow_combos / sow_cases / Crop.grow / grow_missing (C04, C07, C08)."""
+    S = R.spec
+    R.pure_ext |= {"copy.deepcopy"}
+    R.inert |= {"os.makedirs"}
+
+    def fs_same_except2(eng, fr, p1, p2):
+        q = z3.Const(fresh_name("q"), V)
+        g0, g1 = fr.old.ghost, fr.st.ghost
+        a, b = eng.as_V(p1), eng.as_V(p2)
+        same = z3.And(z3.Select(g1["FS_ex"].t, q) == z3.Select(g0["FS_ex"].t, q), z3.Select(g1["FS_ct"].t, q) == z3.Select(g0["FS_ct"].t, q),
+                      z3.Select(g1["FS_ok"].t, q) == z3.Select(g0["FS_ok"].t, q))
+        return mk_bool(z3.ForAll([q], z3.Implies(z3.And(q != a, q != b), same)))
+    S["fs_same_except2"] = fs_same_except2
+
+    def results_untouched(eng, fr, loc):
+        """no result file of the crop changed"""
+        i = z3.Int(fresh_name("i"))
+        g0, g1 = fr.old.ghost, fr.st.ghost
+        p = S["ResultPath"](eng, fr, loc, mk_int(i)).t
+        return mk_bool(z3.ForAll([i], z3.And(z3.Select(g1["FS_ex"].t, p) == z3.Select(g0["FS_ex"].t, p), z3.Select(g1["FS_ct"].t, p) == z3.Select(g0["FS_ct"].t, p),
+                                             z3.Select(g1["FS_ok"].t, p) == z3.Select(g0["FS_ok"].t, p)), patterns=[p]))
+    S["results_untouched"] = results_untouched
+
+    info_saved = ("saved", "fs_exists(InfoPath(self.location)) and fs_complete(InfoPath(self.location)) and "
+                           "mat(fs_content(InfoPath(self.location)), 'combos') == combos and mat(fs_content(InfoPath(self.location)), 'cases') == cases and "
+                           "mat(fs_content(InfoPath(self.location)), 'fn_args') == fn_args and "
+                           "mat(fs_content(InfoPath(self.location)), 'batchsize') == self.batchsize and "
+                           "mat(fs_content(InfoPath(self.location)), 'num_batches') == self.num_batches and "
+                           "mat(fs_content(InfoPath(self.location)), '_batch_remainder') == self._batch_remainder and "
+                           "mat(fs_content(InfoPath(self.location)), 'shuffle') == self.shuffle and mhas(fs_content(InfoPath(self.location)), 'shuffle')")
+
+    R.add(K + "Crop.save_info", cls="Crop", result="none", props=["C04", "C07"],
+          requires=[("raw_crop", "self.farmer is None")],
+          modifies=["ghost:FS"],
+          ensures=[info_saved, ("frame", "fs_same_except(InfoPath(self.location))")],
+          raises={"OSError": dict(ensures=["fs_same_except(InfoPath(self.location))"])},
+          notes="raw crops (no farmer); the pickled farmer of Runner/Harvester/Sampler crops is C06")
+
+    R.add(K + "Crop.save_function_to_disk", cls="Crop", result="none", props=["C04"],
+          modifies=["ghost:FS"],
+          ensures=[("saved", "fs_exists(FnPath(self.location)) and fs_complete(FnPath(self.location))"), ("frame", "fs_same_except(FnPath(self.location))")],
+          raises={"OSError": dict(ensures=["fs_same_except(FnPath(self.location))"])})
+    R.add(K + "Crop.ensure_dirs_exists", cls="Crop", inline=True)
+
+    R.add(K + "Crop.prepare", cls="Crop", result="none", props=["C04", "C07"],
+          requires=[("raw_crop", "self.farmer is None")],
+          modifies=["ghost:FS"],
+          ensures=[info_saved, ("frame", "fs_same_except2(InfoPath(self.location), FnPath(self.location))")],
+          raises={"OSError": dict(ensures=["fs_same_except2(InfoPath(self.location), FnPath(self.location))"])})
+    return R
+
+
+def install_sow2(R):
+    S = R.spec
+    FARM = "xyzpy/gen/farming.py:"
+
+    R.add(K + "Crop.runner", cls="Crop", result="V", props=["C06"],
+          ensures=[("none", "implies(self.farmer is None, result is None)"),
+                   ("runner", "implies(isinstance(self.farmer, Runner), result == self.farmer)")])
+
+    R.add(K + "Crop.parse_constants", cls="Crop", result="V", props=["C04", "C06"],
+          requires=[("constants", "constants is None or is_dict(constants)")],
+          ensures=[("raw", "implies(self.farmer is None, (result == constants) if is_dict(constants) else slen(result.keys()) == 0)"),
+                   ("dict", "is_dict(result)")],
+          raises={"AnyError": dict()})
+
+    def sower_stream_rule(eng, cf, res):
+        """Callback rule (meta-theorem: induction over the runner's calls with the callee's own call contract): if the function
+        handed to combo_runner_core is a Sower satisfying SowerInv, then afterwards it satisfies SowerInv, has received exactly the
+        runner's calls in order (g_stream extended by the logged kwargs) and its crop's batching is untouched."""
+        st = cf.st
+        fn = st.env.get("fn")
+        if fn is None or fn.k != "obj" or fn.meta.get("cls") != "Sower":
+            return
+        old = cf.old
+        g = lambda s_, a: eng.heap_get(s_, fn, a).t
+        k0, k1 = g(old, "g_k"), g(st, "g_k")
+        s1 = g(st, "g_stream")
+        n0, n1 = old.ghost["calls_n"].t, st.ghost["calls_n"].t
+        t = z3.Int(fresh_name("t"))
+        inv = eng.truth(S["SowerInv"](eng, cf, fn), cf)
+        st.assume(inv)
+        st.assume(k1 == k0 + (n1 - n0))
+        st.assume(z3.ForAll([t], z3.Implies(z3.And(0 <= t, t < n1 - n0), T.sget(s1, k0 + t) == z3.Select(st.ghost["calls_kw"].t, n0 + t)),
+                            patterns=[T.sget(s1, k0 + t)]))
+        crop0 = eng.heap_get(old, fn, "crop")
+        eng.heap_set(st, fn, "crop", crop0, cf)       # the Sower keeps pointing at the same crop (heap entries are keyed by object term)
+        crop1 = crop0
+        loc = eng.heap_get(st, crop1, "location")
+        st.assume(eng.truth(S["results_untouched"](eng, cf, loc), cf))     # Sower.__call__#results_untouched, every call
+        st.assumed.append("callback rule: induction over the runner's calls of Sower.__call__ (meta-theorem)")
+
+    base = R.get("xyzpy/gen/combo_runner.py:combo_runner_core")
+    prev = base.hooks.get("after_call")
+
+    def after_call(eng, cf, res):
+        if prev:
+            prev(eng, cf, res)
+        sower_stream_rule(eng, cf, res)
+    base.hooks["after_call"] = after_call
+    base.requires.append(("callable_invariant", "SowerInvIfSower(fn)"))
+
+    def sower_inv_if(eng, fr, fn):
+        if fn.k == "obj" and fn.meta.get("cls") == "Sower":
+            return S["SowerInv"](eng, fr, fn)
+        return mk_bool(True)
+    S["SowerInvIfSower"] = sower_inv_if
+
+    R.add(K + "Crop.sow_combos", cls="Crop", result="none", props=["C04", "C07", "C08"],
+          requires=[("raw_crop", "self.farmer is None"),
+                    ("inputs", "(combos is None or is_dict(combos) or is_seq(combos)) and (cases is None or is_dict(cases) or is_seq(cases)) "
+                               "and (constants is None or is_dict(constants))"),
+                    ("batching_request", "none_or_int(self.batchsize) and none_or_int(self.num_batches) and none_or_int(self._batch_remainder) and "
+                                         "none_or_int(batchsize) and none_or_int(num_batches) and (self._batch_remainder is None or ival(self._batch_remainder) >= 0)")],
+          modifies=["*"],
+          hooks={"skip_call_pre": {"Sower.__exit__": ["results_untouched"]}},
+          ensures=[
+              ("order_of_steps", "called_before('Crop.choose_batch_settings', 'Crop.prepare') and called_before('Crop.prepare', 'combo_runner_core') "
+                                 "and called_before('Sower.__init__', 'combo_runner_core') and ncalled('combo_runner_core') == 1"),
+              ("sown_what_is_saved", "call_arg('Crop.prepare', 'combos') == call_arg('combo_runner_core', 'combos') and "
+                                     "call_arg('Crop.prepare', 'cases') == call_arg('combo_runner_core', 'cases') and "
+                                     "call_arg('Crop.choose_batch_settings', 'combos') == call_arg('combo_runner_core', 'combos') and "
+                                     "call_arg('Crop.choose_batch_settings', 'cases') == call_arg('combo_runner_core', 'cases')"),
+              ("sows_in_saved_order", "call_arg('combo_runner_core', 'shuffle') == self.shuffle"),
+              ("shuffle_setting", "self.shuffle == (old(self.shuffle) if old(shuffle) is None else old(shuffle))"),
+              ("sower_receives_the_settings", "call_arg('combo_runner_core', 'fn') == call_arg('Sower.__init__', 'self') and call_arg('Sower.__init__', 'crop') == self "
+                                              "and call_arg('combo_runner_core', 'constants') == call_result('Crop.parse_constants')"),
+              ("normalised_inputs", "call_arg('parse_combos', 'combos') == old(combos) and call_arg('parse_cases', 'cases') == old(cases)"),
+              ("results_survive_resow", "results_untouched(self.location)"),
+          ],
+          raises={"AnyError": dict()})
+    return R
+
+
+def install_sow3(R):
+    S = R.spec
+    CASE = "xyzpy/gen/case_runner.py:"
+    # caller-side refinement of case_runner: it hands everything to the core runner (case_runner's own trace obligations, C02)
+    R.add(K + "Crop.sow_cases", cls="Crop", result="none", props=["C04", "C07", "C08"],
+          requires=[("raw_crop", "self.farmer is None"),
+                    ("inputs", "(cases is None or is_dict(cases) or is_seq(cases)) and (combos is None or is_seq(combos)) and (constants is None or is_dict(constants)) "
+                               "and (fn_args is None or isinstance(fn_args, str) or is_seq(fn_args))"),
+                    ("batching_request", "none_or_int(self.batchsize) and none_or_int(self.num_batches) and none_or_int(self._batch_remainder) and "
+                                         "none_or_int(batchsize) and none_or_int(num_batches) and (self._batch_remainder is None or ival(self._batch_remainder) >= 0)")],
+          modifies=["*"],
+          hooks={"skip_call_pre": {"Sower.__exit__": ["results_untouched"], "case_runner": []}},
+          ensures=[
+              ("order_of_steps", "called_before('Crop.choose_batch_settings', 'Crop.prepare') and called_before('Crop.prepare', 'case_runner') "
+                                 "and called_before('Sower.__init__', 'case_runner') and ncalled('case_runner') == 1"),
+              ("sown_what_is_saved", "call_arg('Crop.prepare', 'combos') == call_arg('case_runner', 'combos') and "
+                                     "call_arg('Crop.prepare', 'cases') == call_arg('case_runner', 'cases') and "
+                                     "call_arg('Crop.prepare', 'fn_args') == call_arg('case_runner', 'fn_args') and "
+                                     "call_arg('Crop.choose_batch_settings', 'combos') == call_arg('case_runner', 'combos') and "
+                                     "call_arg('Crop.choose_batch_settings', 'cases') == call_arg('case_runner', 'cases') and call_arg('case_runner', 'parse') == False"),
+              ("sows_in_saved_order", "call_arg('case_runner', 'shuffle') == self.shuffle and self.shuffle == old(self.shuffle)"),
+              ("sower_receives_the_settings", "call_arg('case_runner', 'fn') == call_arg('Sower.__init__', 'self') and call_arg('Sower.__init__', 'crop') == self "
+                                              "and call_arg('case_runner', 'constants') == call_result('Crop.parse_constants')"),
+              ("cases_normalised_with_names", "call_arg('parse_cases', 'cases') == old(cases) and call_arg('parse_cases', 'fn_args') == call_result('parse_fn_args') "
+                                              "and call_arg('case_runner', 'cases') == call_result('parse_cases')"),
+          ],
+          raises={"AnyError": dict()})
+
+    R.add(K + "Crop.grow", cls="Crop", result="none", props=["C04", "C08"],
+          modifies=["*"],
+          ensures=[("each_listed_batch_once", "ncalled('combo_runner_core') == 1 and FnIsGrow(call_arg('combo_runner_core', 'fn')) and "
+                                              "slen(call_arg('combo_runner_core', 'combos')) == 1 and "
+                                              "sget(sget(call_arg('combo_runner_core', 'combos'), 0), 0) == 'batch_number' and "
+                                              "sget(sget(call_arg('combo_runner_core', 'combos'), 0), 1) == (snoc(empty_seq(), old(batch_ids)) if isinstance(old(batch_ids), int) else old(batch_ids)) and "
+                                              "mat(call_arg('combo_runner_core', 'constants'), 'crop') == self and mat(call_arg('combo_runner_core', 'constants'), 'verbosity') == 0"),
+                   ],
+          raises={"AnyError": dict()})
+
+    def fn_is_grow(eng, fr, f):
+        return mk_bool(f.k == "py" and getattr(f.t, "key", "").endswith("cropping.py:grow"))
+    S["FnIsGrow"] = fn_is_grow
+
+    R.add(K + "Crop.grow_missing", cls="Crop", result="none", props=["C04", "C08", "C16"],
+          requires=[("sown", "fs_exists(InfoPath(self.location)) and is_int(mat(fs_content(InfoPath(self.location)), 'num_batches'))")],
+          modifies=["*"],
+          ensures=[("grows_exactly_the_missing", "ncalled('Crop.grow') == 1 and ncalled('Crop.missing_results') == 1 and "
+                                                 "call_arg('Crop.grow', 'batch_ids') == call_result('Crop.missing_results') and "
+                                                 "called_before('Crop.missing_results', 'Crop.grow')")],
+          raises={"AnyError": dict()})
+    return R
+
+
+def install_c04_lemma(R):
+    """Lemma SowGrowReap (C04): composition of the contracts of sow_combos (+Sower), grow, Reaper and the core runner."""
+    S = R.spec
+    callret = R.symbols["callret"]
+
+    def lemma(eng, pid):
+        from pyvc.state import VC
+        Int = z3.IntSort()
+        Fv = z3.Function("FnValue", V, V)                 # the (deterministic) swept function as a map kwargs -> result
+        Kw = z3.Function("KwsAt", Int, V)                 # Kws(args, Prod[g], constants): the kwargs of grid point g
+        E = z3.Function("OrdAt", Int, Int)                # Ord(shuffle, n, t): the same for sow and reap (same saved combos/cases/shuffle/seed)
+        off = lambda j, bs, rem: (j - 1) * bs + z3.If(j - 1 < rem, j - 1, rem)
+        siz = lambda j, bs, rem: bs + z3.If(j - 1 < rem, 1, 0)
+        n, bs, rem, nb = z3.Ints("n bs rem nb")
+        blen = lambda j: z3.If(off(j, bs, rem) + siz(j, bs, rem) <= n, siz(j, bs, rem), n - off(j, bs, rem))
+        Stream = z3.Function("SownStream", Int, V)        # t-th kwargs received by the Sower
+        Batch = z3.Function("BatchContent", Int, Int, V)  # element p of batch file b
+        Res = z3.Function("ResultContent", Int, Int, V)   # element p of result file b
+        ret = z3.Function("ReaperReturn", Int, V)         # value returned by the t-th call of the Reaper
+        out = z3.Function("ReapedFlat", Int, V)           # flat reaped result, grid order
+        t, b, p = z3.Ints("t b p")
+        inr = z3.And(1 <= b, b <= nb, 0 <= p, p < blen(b))
+        hyps = [
+            ("combo_runner_core#every_combination_called_once + callback rule", z3.ForAll([t], z3.Implies(z3.And(0 <= t, t < n), Stream(t) == Kw(E(t))), patterns=[Stream(t)])),
+            ("Sower.__exit__#files (batch b holds stream[offset(b) : offset(b)+len])", z3.ForAll([b, p], z3.Implies(inr, Batch(b, p) == Stream(off(b, bs, rem) + p)), patterns=[Batch(b, p)])),
+            ("Sower.__exit__#covers / nonempty", z3.And(off(nb, bs, rem) + blen(nb) == n, nb >= 1, bs >= 1, rem >= 0)),
+            ("grow#result_written_in_batch_order (+ fn deterministic)", z3.ForAll([b, p], z3.Implies(inr, Res(b, p) == Fv(Batch(b, p))), patterns=[Res(b, p)])),
+            ("Reaper.__init__#files_in_batch_order + _load#loaded (lazy chain semantics)", z3.ForAll([b, p], z3.Implies(inr, ret(off(b, bs, rem) + p) == Res(b, p)), patterns=[Res(b, p)])),
+            ("combo_runner_core#flat_in_grid_order on the reap (same Ord: reap_combos#core_args, sow_combos#sows_in_saved_order)",
+             z3.ForAll([t], z3.Implies(z3.And(0 <= t, t < n), out(E(t)) == ret(t)), patterns=[ret(t)])),
+            ("offsets stay inside the stream", z3.ForAll([b, p], z3.Implies(inr, z3.And(0 <= off(b, bs, rem) + p, off(b, bs, rem) + p < n)), patterns=[Batch(b, p)])),
+        ]
+        # the goal is universally quantified over (b, p); it is proved for arbitrary Skolem constants b0, p0, and each
+        # quantified hypothesis is used at that instance (written out, so that no trigger choice is involved)
+        b0, p0 = z3.Ints("b0 p0")
+        t0 = off(b0, bs, rem) + p0
+        inst = []
+        for nm, h in hyps:
+            if z3.is_quantifier(h):
+                nv = h.num_vars()
+                body = h.body()
+                if nv == 2:
+                    inst.append(z3.substitute_vars(body, p0, b0))      # de Bruijn: last bound variable first
+                else:
+                    inst.append(z3.substitute_vars(body, t0))
+            else:
+                inst.append(h)
+        inr0 = z3.And(1 <= b0, b0 <= nb, 0 <= p0, p0 < blen(b0))
+        goal = z3.Implies(inr0, out(E(t0)) == Fv(Kw(E(t0))))
+        vc = VC("reaped_equals_direct_at_every_sown_position", "lemmas:SowGrowReap", inst, goal, kind="lemma", props=[pid],
+                meta={"hypotheses_from": [nm for nm, _ in hyps]})
+        return [vc]
+    R.extra_checks.setdefault("C04", []).append(lemma)
+    R.prop_meta["C04"] = dict(
+        bounded_in_quick="end-to-end sow/grow/reap == direct on the real code: replay/C04.py (240 random configurations: grids and case lists, "
+                         "batchsize / num_batches / neither, constructor and sow-time shuffle, random grow order with regrouping and repeats, "
+                         "fresh Crop objects, grow() and Crop.grow)",
+        not_decided=["Reaper.__call__ = next(chain.from_iterable(map(load, files))): the lazy-iterator semantics linking __init__'s verified file order "
+                     "and _load's contract to the t-th returned value is assumed (hypothesis 5 of lemma SowGrowReap)",
+                     "pickle / cloudpickle round trip; fn deterministic"],
+        assumptions=["lemma SowGrowReap hypothesis 'offsets stay inside the stream' follows from the batching arithmetic (Sower.__exit__#covers, size_bound)"],
+    )
     return R
